@@ -114,7 +114,7 @@ PLAN = {
         "level_note": "Trusted: pyvc encoder; M_h11; that bytes of request n+1 are not emitted before start_next_cycle is h11's behaviour.",
     },
     "C13": {
-        "units": [PWR + "__init__", PWR + "handle", H1P + "_check_protocol", H1P + "_create_stream", H1P + "handle", H1P + "_handle_events", HP + "initiate", H1W + "receive_data", H1W + "next_event"],
+        "units": [PWR + "__init__", PWR + "initiate", PWR + "handle", H1P + "_check_protocol", H1P + "_create_stream", H1P + "handle", H1P + "_handle_events", HP + "initiate", H1W + "receive_data", H1W + "next_event"],
         "trusted_base": LIB_H11 + LIB_H2 + LIB_RT,
         "assumptions": COMMON_ASSUME + ["segmentation independence of h11 (library)", "trailing_data is exactly what h11 has not consumed (library)"],
         "explanation": "protocol selection: ALPN h2 <=> H2Protocol; a request is handed to a WebSocket stream iff it is a GET with Upgrade: websocket and a Connection token upgrade (stated with the recursive spec function last_hdr over the header list); the HTTP/2 preface is never missed by _check_protocol; after a switch the wrapper holds an H2Protocol; WebSocket pass-through loses or duplicates no byte (ghost fed/delivered invariant)",
